@@ -17,7 +17,8 @@ SPEC = {
         ("_build_node_path(final entry taken from lattice[start_idx], deepest live layer preferred as documented)", 'final_choice', r'choose:'),
         ("match(index bookkeeping: early stop detected exactly when the previous column has no live emitting entry, ([],0) only without an admissible first candidate, index = start of the backtracking, complete match reports len-1)", 'match', r'^(result:|loop:(early-stop|continues|runs-over|nothing))'),
         ("_build_node_path(returned sequence = state keys of the back-tracked entries in order; unique removes exactly the immediate repetitions: loop invariant)", 'path_tail', r'(^tail:|^unique:|::inv-(init|preserved)::)'),
-        ("_build_matching_path(back-tracking follows the stored predecessor links to a most probable predecessor; depth counts emitting entries; result reversed from the chosen entry: loop invariants)", 'backtrack', r'(^chain:|::inv-(init|preserved)::)')],
+        ("_build_matching_path(back-tracking follows the stored predecessor links to a most probable predecessor; depth counts emitting entries; result reversed from the chosen entry: loop invariants)", 'backtrack', r'(^chain:|::inv-(init|preserved)::)'),
+        ("_create_start_nodes(every candidate of the spatial query gets its first() call and is filed: the result is empty only without an admissible first candidate)", 'start_nodes', r'^start:(one-first|candidate|no-candidate)')],
     'bounded': [
         ('alignment-postcondition', suites.case_C03, 1500, 200000, RULE + '; ' + 'non-trivial = non-empty result with an early stop or a non-emitting state on the path; unique on/off', '')],
 }
